@@ -1,6 +1,6 @@
 (* C04 — Gherkin parsing is faithful: structure, text, tags, step types and line numbers.
    Statements only; proofs are in theories/GherkinProofs.v. *)
-From BV Require Import Base UStr GherkinTypes Gherkin GherkinProofs GherkinRowProofs GherkinBlockProofs GherkinTagProofs GherkinTableProofs GherkinDocProofs GherkinRichProofs GherkinDescrProofs.
+From BV Require Import Base UStr GherkinTypes Gherkin GherkinProofs GherkinRowProofs GherkinBlockProofs GherkinTagProofs GherkinTableProofs GherkinDocProofs GherkinRichProofs GherkinDescrProofs GherkinBgProofs.
 From BVGen Require Import GherkinTables.
 
 (* In every one of the languages of behave.i18n, every alias of every structural keyword, written as "<alias>: x", is
@@ -171,6 +171,25 @@ Theorem a_feature_with_descriptions_tags_docstrings_and_tables_is_parsed_into_ex
     Some (mkPFeat falias fname 1 [] (map strip fds) None (expected_y scens (1 + length fds)) code).
 Proof. exact a_feature_with_descriptions_tags_docstrings_and_tables_is_read_back_exactly. Qed.
 Print Assumptions a_feature_with_descriptions_tags_docstrings_and_tables_is_parsed_into_exactly_what_was_written.
+
+(* ... and with the feature's Background (its line and its Given/When/Then steps) in front of the scenarios *)
+Theorem a_feature_with_background_is_parsed_into_exactly_what_was_written :
+  forall kw code fline falias fname fds bline balias bname bsteps scens,
+  feature_line kw fline falias fname -> Forall (descr_line kw) fds ->
+  background_line kw bline balias bname -> bsteps <> [] ->
+  Forall (fun x => let '(line, t, k, text) := x in step_line kw line t k text) bsteps ->
+  Forall (yscen_ok kw) scens ->
+  let lb := 1 + length fds in
+  exists m',
+    finish_table (fold_left feed (fline :: fds ++ bline :: map (fun x => fst (fst (fst x))) bsteps ++ flat_map yscen_lines scens)
+                            (ROk (init_state code kw VFeature StInitial))) = ROk m' /\
+    m_table m' = None /\
+    option_map fin_feature (m_feat m') =
+    Some (mkPFeat falias fname 1 [] (map strip fds)
+                  (Some (mkPBg balias bname (S lb) (steps_of bsteps (S lb)) []))
+                  (expected_y scens (S lb + length bsteps)) code).
+Proof. exact a_feature_with_background_is_read_back_exactly. Qed.
+Print Assumptions a_feature_with_background_is_parsed_into_exactly_what_was_written.
 
 (* non-vacuity: a German document with header, tags over two lines with a comment, a background, an outline with examples,
    a doc-string and a table with an escaped pipe, indentation, blank and comment lines *)
